@@ -110,6 +110,9 @@ func gopfmt(path string, class, smart, mvgo bool) (err error) {
 
 func writeFileWithBackup(path string, target []byte) (err error) {
 	dir, file := filepath.Split(path)
+	if dir == "" { // a bare file name: create the temp file next to it, not in os.TempDir()
+		dir = "."
+	}
 	f, err := os.CreateTemp(dir, file)
 	if err != nil {
 		return
@@ -130,7 +133,10 @@ func writeFileWithBackup(path string, target []byte) (err error) {
 		return
 	}
 	// rename over path: path always holds the old or the new content
-	return os.Rename(tmpfile, path)
+	if err = os.Rename(tmpfile, path); err != nil {
+		os.Remove(tmpfile)
+	}
+	return
 }
 
 type walker struct {
